@@ -57,7 +57,7 @@ def decode_frame(p):
 
 
 def strategy():
-    fr = st.integers(0, 8 * 4 * 4 * 4 * 3 * 2 - 1).map(decode_frame)
+    fr = worldops.packed(8 * 4 * 4 * 4 * 3 * 2).map(decode_frame)
     return st.fixed_dictionaries({'handles': st.integers(2, 4), 'frames': worldops.chunked(fr, 16, chunk=4),
                                   # which World classes the handles load: 0 plain/falsy alternating, 1 value-equal
                                   # worlds, 2 value-equal and value-equal-and-falsy, 3 all plain
